@@ -16,7 +16,9 @@ DECIDES = ("Decided: (a) substitution visits every recursive position of the typ
            "at each position of the rebuilt object flows from a recursive substitution call or a type_map lookup, every "
            "list element is visited; (b) the substitution / instantiation family never writes into its inputs (effect "
            "summaries over the call-graph closure, fresh-root classification); (c) constructors copy the mutable things "
-           "they are given; (d) TypeConstructor.new reinstalls only `supertypes`, on the new object's constructor copy.")
+           "they are given; (d) TypeConstructor.new reinstalls only `supertypes`, on the new object's constructor copy; "
+           "(e) every ParameterizedType construction site wraps a constructor that went through perform_type_substitution "
+           "or a function type constructor with ground supertypes.")
 NOT_DECIDED = "equality of the result with an independent substitution (value level)."
 
 T = "src.ir.types"
